@@ -20,17 +20,25 @@ def gen_layout(rng, maxchroms=4, maxbins=8, kind=None):
             nb = rng.randint(1, maxbins)
             if kind == "mixed-one" and c > 0 and rng.random() < 0.5:
                 nb = 1
-            if kind == "longlast":
-                nb = max(nb, 2) if c == 0 else nb
             e = [k * b for k in range(nb)]
             if kind == "fixed-exact" or kind == "fixed1":
                 last = nb * b
             elif kind == "longlast":
-                last = nb * b + rng.randint(1, 2 * b) if nb >= 2 else nb * b - rng.randint(0, b - 1)
+                # uniform except that some last bin (possibly a contig's only bin) is LONGER
+                if rng.random() < 0.6:
+                    last = nb * b + rng.randint(1, 2 * b)
+                else:
+                    last = (nb - 1) * b + rng.randint(1, b)
             else:
                 last = (nb - 1) * b + rng.randint(1, b)
             e.append(last)
             edges.append(e)
+        if kind == "longlast":
+            if all(len(e) == 2 for e in edges):
+                edges[rng.randrange(nchr)] = [0, b, 2 * b, 3 * b - rng.randint(0, b - 1)]
+            if all(e[-1] - e[-2] <= b for e in edges):
+                c = rng.randrange(nchr)
+                edges[c][-1] = edges[c][-2] + b + rng.randint(1, b)
         if kind in ("fixed", "fixed-exact", "fixed1", "mixed-one") and all(len(e) == 2 for e in edges):
             # make at least one chromosome multi-bin so that a size is inferable
             edges[0] = [0, b, 2 * b]
@@ -82,8 +90,9 @@ def dyadic(rng, lo=-64, hi=64):
     return rng.randint(lo * 8, hi * 8) / 8.0
 
 
-def gen_values(rng, npx, spec):
-    """spec: {"count": dtype or None, extra columns...}; returns dict col->list"""
+def gen_values(rng, npx, spec, big64=False):
+    """spec: {"count": dtype or None, extra columns...}; returns dict col->list.
+    big64: let 64-bit integers exceed 2**53 (exactness beyond float64)."""
     out = {}
     for col, dt in spec.items():
         if dt in ("int32", "int64", "int16", "uint16"):
@@ -93,8 +102,9 @@ def gen_values(rng, npx, spec):
             elif mag == "one":
                 out[col] = [1] * npx
             else:
-                lim = {"int32": 2**31 - 1, "int64": 2**40, "int16": 2**15 - 1, "uint16": 2**16 - 1}[dt]
-                out[col] = [rng.randint(lim // 4, lim // 3) for _ in range(npx)]
+                lim = {"int32": 2**31 - 1, "int64": 2**63 - 1 if big64 else 2**40, "int16": 2**15 - 1,
+                       "uint16": 2**16 - 1}[dt]
+                out[col] = [rng.randint(lim // 4, lim // 3) | 1 for _ in range(npx)]
         else:
             out[col] = [dyadic(rng, 0, 64) if col == "count" else dyadic(rng) for _ in range(npx)]
     return out
@@ -158,14 +168,14 @@ def slice_record(rec, lo, hi):
 
 
 def gen_create(rng, layout=None, maxpx=60, symmetric=None, colspec=None, density=None,
-               ordered_only=True, simple=False):
+               ordered_only=True, simple=False, big64=False):
     """A create op body (without destination)."""
     layout = layout or gen_layout(rng)
     n = nbins_of(layout)
     symmetric = rng.random() < 0.65 if symmetric is None else symmetric
     colspec = colspec or ({"count": "int32"} if simple else gen_colspec(rng))
     support = gen_support(rng, n, symmetric, density, maxpx)
-    values = gen_values(rng, len(support), colspec)
+    values = gen_values(rng, len(support), colspec, big64)
     rec = pixels_record(support, values)
     form = rng.choice(["df", "dict", "iter", "iter", "iterdict", "array"] if not simple else ["df", "iter"])
     if form == "array" and (set(colspec) != {"count"} or not symmetric):
